@@ -164,6 +164,11 @@ def parse_body(s):
             args = [flat(a) for a in t[2]]
             out.append(Atom(name, args, ret))
             texts.append("(= %s %s)" % (_term_text(ret), _term_text(t)))
+    ctor_names = [nm for nm in types if kind_of(nm) == "ctor"]
+    needs_E = ctor_names or any(t == "E" for sig in types.values() for t in sig[0])
+    if needs_E and not any(all(t == "i" for t in types[nm][0]) for nm in ctor_names):
+        # every eq-sort value needs a finite term: an implicit base constructor that the body does not mention
+        types["mkZ"] = (["i"], "E")
     out.text = " ".join(texts)
     out.types = types
     return out
@@ -377,7 +382,7 @@ def render_program(atoms, no_decomp, profile, steps, seed=0, rules=None, head=No
     vs = head if head is not None else body_vars(atoms)
     tyname = {"i": "i64", "E": "E"}
     lines = []
-    ctors = sorted(nm for nm in sig if kind_of(nm) == "ctor")
+    ctors = sorted(nm for nm in types if kind_of(nm) == "ctor")
     if ctors or any(var_type(v) == "E" for v in vs):
         lines.append("(sort E)")
         for nm in ctors:
